@@ -232,7 +232,7 @@ Proof.
   exists (x, y). rewrite Ep. split; [exact Ed|].
   unfold ec_key. unfold ecoords in E.
   assert (I : inb c (Some (x, y)) = true) by (rewrite <- E; exact (proj2_sig (esmul c (bz se) G))).
-  rewrite I. f_equal. apply ept_eq. rewrite mk_val_b by exact I. symmetry. exact E.
+  rewrite I. apply (f_equal (@Some (ept c))). apply ept_eq. rewrite mk_val_b by exact I. symmetry. exact E.
 Qed.
 
 (* ---- the three interface hypotheses of Props/C05.v, on their true domain ------------------------------------------ *)
